@@ -377,10 +377,30 @@ def tGet : TExpr → V → Option V
     | some v => tGet ks v
     | Option.none => Option.none
 
-/-- what `arg_val` is given (a `default=`): a plain value or a T expression -/
-inductive Arg where
+/-- an item of a list / tuple display given as an argument -/
+inductive ArgItem where
   | const (v : V)
   | t (e : TExpr)
   deriving Repr, Inhabited, DecidableEq
+
+/-- what `arg_val` is given (a `default=`): a plain value, a T expression, `Val(v)`, or a list /
+    tuple display whose items are plain values or T expressions (`default=[T['a'], 0]`:
+    `_ArgValuator.mode` rebuilds the container with every item evaluated) -/
+inductive Arg where
+  | const (v : V)
+  | t (e : TExpr)
+  | val (v : V)                                  -- `Val(v)`
+  | seq (tuple : Bool) (items : List ArgItem)    -- `[…]` / `(…)`
+  deriving Repr, Inhabited, DecidableEq
+
+def ArgItem.isConst : ArgItem → Bool
+  | .const _ => true
+  | .t _ => false
+
+/-- no T expression anywhere: evaluating the argument cannot fail -/
+def Arg.isConst : Arg → Bool
+  | .const _ | .val _ => true
+  | .t _ => false
+  | .seq _ items => items.all ArgItem.isConst
 
 end Glom.MV
